@@ -171,6 +171,20 @@ impl Driver {
                     l.iter().map(|x| format!("{:?}", x)).collect::<Vec<_>>().join(",")
                 }
             }
+            "FLAGS" => {
+                let cp: u32 = it.next().unwrap().parse().unwrap();
+                match char::from_u32(cp) {
+                    Some(c) => format!("{}", hooks::mess_char(c).0),
+                    None => "0".into(),
+                }
+            }
+            "RACC" => {
+                let cp: u32 = it.next().unwrap().parse().unwrap();
+                match char::from_u32(cp) {
+                    Some(c) => format!("{}", hooks::remove_accent(c) as u32),
+                    None => format!("{}", cp),
+                }
+            }
             "LAYERS" => {
                 let t = String::from_utf8(unhex(it.next().unwrap())).unwrap();
                 let l = hooks::alpha_unicode_split(&t);
@@ -309,6 +323,11 @@ impl Driver {
         self.send(&format!("FALT {}", c));
         let _ = self.stdin.flush();
         self.collect(true).pop().unwrap_or_default()
+    }
+
+    /// read up to the END marker of a multi-line answer whose first line was already taken
+    pub fn decode_model_drain(&mut self) -> Vec<String> {
+        self.collect(false)
     }
 
     pub fn decode_model(&mut self, cmd: &str) -> String {
